@@ -494,7 +494,14 @@ def plan_extra(c):
     """Beyond the listed properties (not in MANIFEST.json): the rest of the public surface against Api.tla."""
     m, _ = tv(c, "api", "Trace_Api", "Trace.cfg", "EXTRA public surface (constructors, tags, conversions, Display)", shard=0)
     c.traces += m
-    return m
+    # the async / blocking decoder as a transition system (AsyncAbs) and its binding: the decoder stops exactly at the
+    # decision point of the specification's parser, on malformed input too
+    base = open(vlib.SPEC + "/mc/MC_Async.cfg").read()
+    for fam in ("v3", "v5"):
+        c.tlc_mc("MC_Async-" + fam, "MC_Async", cfg_text=base.replace('Fam = "v3"', 'Fam = "%s"' % fam), workers=1)
+    a, _ = tv(c, "dec3", "Trace_Async", "Trace.cfg", "EXTRA async decoder stops at the parser's decision point")
+    c.traces += a
+    return m + a
 
 
 PLANS["EXTRA"] = {"plan": plan_extra, "level": "model_checking", "claim": "not claimed", "technique": "trace validation",
